@@ -351,62 +351,7 @@ func runC04(c *Ctx) {
 		c.Floor("C04.reg-all", n, 1)
 	}
 
-	// ---- processSubscription: marker placement
-	{
-		e := &PPA{
-			MaxVisits: 3,
-			Inline: func(fr *Frame, call ssa.CallInstruction, callee *ssa.Function) bool {
-				return callee.Parent() == procSub
-			},
-			Watch: func(ev *Ev) bool {
-				return isQueueInsert(ev) || ev.Label == "call:(*cache.Cache).Query" || strings.HasPrefix(ev.Label, "send:")
-			},
-		}
-		e.Run(procSub)
-		c.Paths += len(e.Paths)
-		c.Scen++
-		if e.Overflow {
-			c.Unknown("C04.one-sync", fnName(procSub), "marker placement", "", "path overflow")
-		}
-		var markerInstr ssa.Instruction
-		nMarkerPaths := 0
-		for _, p := range e.Paths {
-			m := p.Count(isMarkerInsert)
-			last := -1
-			for i := range p.Trace {
-				if isQueueInsert(&p.Trace[i]) || p.Trace[i].Label == "call:(*cache.Cache).Query" {
-					last = i
-				}
-			}
-			ok := m <= 1
-			if m == 1 {
-				nMarkerPaths++
-				mi := p.Index(0, isMarkerInsert)
-				markerInstr = p.Trace[mi].In
-				ok = mi == last
-			}
-			c.Check(ok, "C04.one-sync", fnName(procSub), "at most one marker, after the last Query/Insert", P.Pos(procSub.Pos()), "path: "+p.String())
-		}
-		c.Floor("C04.one-sync/processSubscription", nMarkerPaths, 1)
-		// the marker is not reachable from the true edge of an error check
-		if markerInstr != nil {
-			nChecks := 0
-			for _, b := range procSub.Blocks {
-				ifi, ok := b.Instrs[len(b.Instrs)-1].(*ssa.If)
-				if !ok {
-					continue
-				}
-				bo, ok := ifi.Cond.(*ssa.BinOp)
-				if !ok || bo.Op != token.NEQ || !isNilConst(bo.Y) || !types.Identical(bo.X.Type(), types.Universe.Lookup("error").Type()) {
-					continue
-				}
-				nChecks++
-				reach := reachableFrom(b.Succs[0])[markerInstr.Block()]
-				c.Check(!reach, "C04.one-sync", fnName(procSub), "no marker after a failed step: "+Expr(bo), P.Pos(posOf(ifi)), fmt.Sprintf("marker reachable from error edge: %v", reach))
-			}
-			c.Floor("C04.one-sync/error-checks", nChecks, 2)
-		}
-	}
+	markerPlacement(c, "C04.one-sync")
 
 	// ---- handles
 	{
@@ -549,4 +494,73 @@ func originCall(v ssa.Value, d int) string {
 		return res
 	}
 	return "other:" + Expr(v)
+}
+
+// markerPlacement checks processSubscription (shared by C04 and C05): at most one sync
+// marker per path, after the last Query/Insert, never reachable from an error edge.
+func markerPlacement(c *Ctx, rule string) {
+	P := c.P
+	procSub := P.Method("subscribe", "Server", "processSubscription")
+	if procSub == nil {
+		c.Unresolved(rule, "subscribe.(*Server).processSubscription")
+		return
+	}
+	c.Analysed(fnName(procSub))
+	// ---- processSubscription: marker placement
+	{
+		e := &PPA{
+			MaxVisits: 3,
+			Inline: func(fr *Frame, call ssa.CallInstruction, callee *ssa.Function) bool {
+				return callee.Parent() == procSub
+			},
+			Watch: func(ev *Ev) bool {
+				return isQueueInsert(ev) || ev.Label == "call:(*cache.Cache).Query" || strings.HasPrefix(ev.Label, "send:")
+			},
+		}
+		e.Run(procSub)
+		c.Paths += len(e.Paths)
+		c.Scen++
+		if e.Overflow {
+			c.Unknown(rule, fnName(procSub), "marker placement", "", "path overflow")
+		}
+		var markerInstr ssa.Instruction
+		nMarkerPaths := 0
+		for _, p := range e.Paths {
+			m := p.Count(isMarkerInsert)
+			last := -1
+			for i := range p.Trace {
+				if isQueueInsert(&p.Trace[i]) || p.Trace[i].Label == "call:(*cache.Cache).Query" {
+					last = i
+				}
+			}
+			ok := m <= 1
+			if m == 1 {
+				nMarkerPaths++
+				mi := p.Index(0, isMarkerInsert)
+				markerInstr = p.Trace[mi].In
+				ok = mi == last
+			}
+			c.Check(ok, rule, fnName(procSub), "at most one marker, after the last Query/Insert", P.Pos(procSub.Pos()), "path: "+p.String())
+		}
+		c.Floor(rule+"/processSubscription", nMarkerPaths, 1)
+		// the marker is not reachable from the true edge of an error check
+		if markerInstr != nil {
+			nChecks := 0
+			for _, b := range procSub.Blocks {
+				ifi, ok := b.Instrs[len(b.Instrs)-1].(*ssa.If)
+				if !ok {
+					continue
+				}
+				bo, ok := ifi.Cond.(*ssa.BinOp)
+				if !ok || bo.Op != token.NEQ || !isNilConst(bo.Y) || !types.Identical(bo.X.Type(), types.Universe.Lookup("error").Type()) {
+					continue
+				}
+				nChecks++
+				reach := reachableFrom(b.Succs[0])[markerInstr.Block()]
+				c.Check(!reach, rule, fnName(procSub), "no marker after a failed step: "+Expr(bo), P.Pos(posOf(ifi)), fmt.Sprintf("marker reachable from error edge: %v", reach))
+			}
+			c.Floor(rule+"/error-checks", nChecks, 2)
+		}
+	}
+
 }
